@@ -32,6 +32,7 @@ ASSUMPTIONS = [
     "float 1e-9 relative; ids as partitions; rest exact (dtype kind not compared for the overridden run's descendants)",
 ]
 BUDGET = {"quick": (32, 4), "thorough": (None, 12)}
+EARLY = 3  # additional strata from 2005-2014 in the quick tier (all of them in the thorough tier)
 GEN = dict(mode="branch", max_households=3)
 K = {"quick": 8, "thorough": 40}
 
